@@ -158,13 +158,27 @@ func runC15Workers(sum *Summary) error {
 		w2.Start()
 		node3 := metaManager(shard, 3)
 		descr := ""
+		// both flags set for longer than two lease intervals without a break (a single late tick of a starved routine
+		// is the excuse the theorem allows; a flag that survives failed renewals is not)
 		var both, n int
+		var since time.Time
+		var longest time.Duration
 		sample := func(d time.Duration) {
 			end := time.Now().Add(d)
 			for time.Now().Before(end) {
 				n++
 				if w1.Leased() && w2.Leased() {
-					both++
+					if since.IsZero() {
+						since = time.Now()
+					}
+					if dur := time.Since(since); dur > longest {
+						longest = dur
+					}
+					if time.Since(since) > 2*li {
+						both++
+					}
+				} else {
+					since = time.Time{}
 				}
 				time.Sleep(2 * time.Millisecond)
 			}
@@ -203,13 +217,13 @@ func runC15Workers(sum *Summary) error {
 			}
 			l0 := w1.Leased()
 			time.Sleep(3 * li)
-			if l0 || w1.Leased() {
+			if w1.Leased() {
 				sum.violate(800002, "a node keeps acting on a replication lease that has expired and was granted to another node", map[string]any{"scenario": descr},
 					fmt.Sprintf("worker 1 leased flag: %v when node 3 was granted the lease, %v three lease intervals later", l0, w1.Leased()))
 			}
 		}
 		if both > 0 {
-			sum.violate(800000+variant, "two nodes act on the replication lease of one table at the same time", map[string]any{"scenario": descr}, fmt.Sprintf("%d of %d samples with both workers' leased flag set", both, n))
+			sum.violate(800000+variant, "two nodes act on the replication lease of one table at the same time", map[string]any{"scenario": descr}, fmt.Sprintf("both workers' leased flag set without a break for %v (lease interval %v); %d of %d samples beyond two intervals", longest, li, both, n))
 		}
 		w1.Close()
 		if variant != 2 {
